@@ -6,7 +6,7 @@ wt=$(mktemp -d /tmp/pairwt.XXXXXX); rmdir $wt
 git -C /repo worktree add -q --detach $wt HEAD || exit 3
 export PYTHONPATH=$wt/src:$wt:/tmp/stubs
 cd $wt
-mkdir -p $wt/out/pairX; sed "s#/tmp/w3/C[0-9]*#$wt#g" $d/demo.py > $wt/out/pairX/demo.py
+mkdir -p $wt/out/pairX; sed "s#/tmp/w[0-9]*/C[0-9]*#$wt#g" $d/demo.py > $wt/out/pairX/demo.py
 timeout 900 /venv/bin/python out/pairX/demo.py > /tmp/pair_clean.$$ 2>/dev/null; clean=$?
 keep_apply=ok; git apply $d/keep/patch.diff 2>/dev/null || keep_apply=FAIL
 timeout 900 /venv/bin/python out/pairX/demo.py > /tmp/pair_keep.$$ 2>/dev/null; keep=$?
